@@ -190,8 +190,10 @@ def classify(diags, meta):
                         seen_body[2] = info.get("line")
                 elif "file" in info or "sidecar" in info:
                     f = info.get("file") or ("side-car of " + info.get("sidecar"))
-                    if f != "contracts/prelude.rs":
-                        in_spec_file = True
+                    # a failing proof inside the prelude / spec / lemma files is a machinery error
+                    # (a failed *precondition of an assumed std contract* has a body span as well
+                    # and is attributed to the calling function below)
+                    in_spec_file = True
                     w = f"{f}:{info.get('line')} ({sp.get('label')})"
                     if w not in where:
                         where.append(w)
